@@ -13,6 +13,7 @@ mod c04;
 mod c05;
 mod c07;
 mod c08;
+mod c09;
 mod c10;
 mod c11;
 mod c12;
@@ -62,6 +63,7 @@ pub fn run(cmd: &str, thorough: bool) -> Option<Report> {
         "c05-encrypt" => c05::run(thorough),
         "c07-histories" => c07::run(thorough),
         "c08-orders" => c08::run(thorough),
+        "c09-filters" => c09::run(thorough),
         "c10-renumber" => c10::run(thorough),
         "c11-edits" => c11::run(thorough),
         "c12-pages" => c12::run(thorough),
@@ -87,6 +89,7 @@ fn replay(v: &serde_json::Value) -> i32 {
         "c05-encrypt" => c05::replay(r),
         "c07-histories" => c07::replay(r),
         "c08-orders" => c08::replay(r),
+        "c09-filters" => c09::replay(r),
         "c10-renumber" => c10::replay(r),
         "c11-edits" => c11::replay(r),
         "c12-pages" => c12::replay(r),
